@@ -1,15 +1,100 @@
-(* C43 — property theorems only. *)
+(* C43 — property theorems only.
+
+   d ranges over datastore states (pools, blocks with affinity and allocations, nodes, local workloads);
+   [valid_state d] says d is a state the datastore admits (Spec.v); [remote_dsts d] are the remote blocks
+   and remote borrowed addresses with their owners; [desired d c] is the RouteUpdate the resolver's flush
+   computes for CIDR c when its trie holds d (Final.v: the trie entry of every prefix as a function of d,
+   then the same walk / finish as Model.flush); [programmed d c] are the kernel routes the vxlan / ipip /
+   noencap managers derive from that RouteUpdate (Model.mgr_keeps, Model.mgr_target); [demanded d c h] is
+   what the property text asks for (Spec.v). *)
 From Coq Require Import List NArith Arith Bool.
 From Verif.Common Require Import Prefix.
-From Verif.C43 Require Import Model Spec Proofs.
+From Verif.C43 Require Import Model Spec Proofs Final FinalProofs Order.
 Import ListNotations.
 Open Scope N_scope.
 
-(* routeManager.updateRoutes: a kept route goes to the parent device (direct, via the owner's address)
-   exactly when the manager is the no-encap one or the route is flagged SameSubnet, and the owner's
-   address is known; everything else it programs is on the tunnel device. *)
+(* For every admitted state and every remote block or borrowed address, the managers program exactly the
+   route the property demands (direct / tunnel / nothing while the owner's address is unknown). *)
+Theorem c43_remote_route_meets_demand : forall d c h, valid_state d = true -> In (c, h) (remote_dsts d) ->
+  programmed d c = kroute_of c (demanded d c h).
+Proof. exact remote_route_meets_demand. Qed.
+Print Assumptions c43_remote_route_meets_demand.
+
+(* Direct route via the owning node's address (on the parent device, by the pool's manager) EXACTLY WHEN
+   the pool is unencapsulated, or cross-subnet with that node in the local subnet (and the owner's address
+   is known, and the pool is not a load-balancer-only pool). *)
+Theorem c43_direct_iff_noencap_or_same_subnet : forall d c h, valid_state d = true -> In (c, h) (remote_dsts d) ->
+  forall m g,
+  programmed d c = [mkK m 1 1 c (Some g)] <->
+  exists p, pool_of d c = Some p /\ encap_of p <> NotRouted /\ m = mgr_of (encap_of p) /\ node_addr d h = Some g
+            /\ (encap_of p = Unencapsulated \/ cross_subnet p && in_local_subnet d h = true).
+Proof. exact direct_iff. Qed.
+Print Assumptions c43_direct_iff_noencap_or_same_subnet.
+
+(* Otherwise a route over the pool's tunnel device: via the owner's VTEP for VXLAN, on-link to the owner's
+   address over the IPIP device for IPIP. *)
+Theorem c43_tunnel_otherwise : forall d c h p a, valid_state d = true -> In (c, h) (remote_dsts d) ->
+  pool_of d c = Some p -> node_addr d h = Some a ->
+  cross_subnet p && in_local_subnet d h = false ->
+  (encap_of p = VXLAN -> programmed d c = [mkK 2 0 2 c (Some (vtep_addr h))])
+  /\ (encap_of p = IPIP -> programmed d c = [mkK 3 0 3 c (Some a)]).
+Proof. exact tunnel_otherwise. Qed.
+Print Assumptions c43_tunnel_otherwise.
+
+(* In EVERY state (admitted or not): a CIDR whose route a manager turns into a blackhole is never a local
+   workload's own address and never a /32. *)
+Theorem c43_blackhole_excludes_local_wep : forall d c r T, wfp 32 c ->
+  desired d c = Some r -> mgr_local_block T c r = true -> ~ In c (wep_addrs d) /\ plen c <> 32%nat.
+Proof. exact blackhole_excludes_local_wep. Qed.
+Print Assumptions c43_blackhole_excludes_local_wep.
+
+(* routeManager.updateRoutes on any kept RouteUpdate: parent-device (direct) target exactly when the manager
+   is the no-encap one or the update is flagged SameSubnet, and the owner's address is known. *)
 Theorem c43_mgr_direct_iff : forall T peers c r k,
   In k (mgr_target T peers c r) ->
   k_class k = 1 <-> ((T = 1 \/ r_same r = true) /\ exists g, r_ip r = Some g /\ k = mkK T 1 1 c (Some g)).
 Proof. exact mgr_target_direct. Qed.
 Print Assumptions c43_mgr_direct_iff.
+
+(* ORDER INDEPENDENCE — refuted for the pinned code (model variant fixed = false): two histories with the
+   same admitted final state end with different kernel routes; the history in which the local node is first
+   known without an IPv4 address keeps a tunnel route where the function of the state is the direct route.
+   Replayed on the real code (driver case script:local-v6only-then-v4); known-findings.txt; repaired by
+   fixes/C43-reflag-unset-local-subnet.patch. *)
+Theorem c43_order_independent_refuted :
+  exists ops c h, valid_state (state_of ops) = true /\ In (c, h) (remote_dsts (state_of ops))
+    /\ routes_for (kernel_after false ops) c <> programmed (state_of ops) c.
+Proof. exact order_refuted_vs_function_of_state. Qed.
+Print Assumptions c43_order_independent_refuted.
+
+Theorem c43_order_independent_refuted_two_histories :
+  state_of hist_gain = state_of hist_plain /\ valid_state (state_of hist_gain) = true
+  /\ kernel_after false hist_gain <> kernel_after false hist_plain.
+Proof. exact order_refuted_two_histories. Qed.
+Print Assumptions c43_order_independent_refuted_two_histories.
+
+(* The mirror image: after the local node loses its IPv4 address the pinned code keeps the direct route. *)
+Theorem c43_order_independent_refuted_stale_direct :
+  valid_state (state_of hist_lose) = true /\ In (w_block, 1) (remote_dsts (state_of hist_lose))
+  /\ routes_for (kernel_after false hist_lose) w_block = [mkK 2 1 1 w_block (Some 2886729995)]
+  /\ programmed (state_of hist_lose) w_block = [mkK 2 0 2 w_block (Some (vtep_addr 1))].
+Proof. exact order_refuted_stale_direct. Qed.
+Print Assumptions c43_order_independent_refuted_stale_direct.
+
+(* c43_order_independent (for every history of the repaired resolver, kernel routes of remote destinations =
+   programmed (state_of history)) is NOT proved: see the report.  On the witnesses above the repaired
+   variant does reach the function of the state: *)
+Example c43_order_witnesses_fixed :
+  routes_for (kernel_after true hist_gain) w_block = programmed (state_of hist_gain) w_block
+  /\ routes_for (kernel_after true hist_lose) w_block = programmed (state_of hist_lose) w_block
+  /\ kernel_after true hist_gain = kernel_after true hist_plain.
+Proof. exact order_witnesses_fixed. Qed.
+
+(* Non-vacuity of the hypotheses of the first three theorems. *)
+Example c43_example_state :
+  valid_state ex_state = true
+  /\ remote_dsts ex_state = [(w_block, 1); (mkP 167837765 32, 2)]
+  /\ programmed ex_state w_block = [mkK 2 1 1 w_block (Some 2886729995)]
+  /\ programmed ex_state (mkP 167837765 32) = [mkK 2 0 2 (mkP 167837765 32) (Some (vtep_addr 2))]
+  /\ blackholes (kernel (peers_of ex_state) (resolve ex_state)) = [mkK 2 2 4 (mkP 167837760 26) None].
+Proof. exact ex_state_ok. Qed.
